@@ -57,7 +57,18 @@ type Amt struct {
 }
 
 // Sat: an amount of spec/Amt.tla is three base-10^8 digits, h*10^16 + u*10^8 + e satoshi
-func (a Amt) Sat() uint64 { return uint64(a.H*10000000000000000 + a.U*100000000 + a.E) }
+func (a Amt) Sat() uint64 { return uint64(a.H)*10000000000000000 + uint64(a.U*100000000+a.E) }
+
+// BTC is the amount as a decimal string of coins, straight from the three base-10^8 digits (it may exceed 2^64 satoshi)
+func (a Amt) BTC() string { return fmt.Sprintf("%d.%08d", a.H*100000000+a.U, a.E) }
+
+// Big is the amount in satoshi, unbounded
+func (a Amt) Big() *big.Int {
+	v := new(big.Int).Mul(big.NewInt(a.H), big.NewInt(100000000))
+	v.Add(v, big.NewInt(a.U))
+	v.Mul(v, big.NewInt(100000000))
+	return v.Add(v, big.NewInt(a.E))
+}
 
 type Unsp struct {
 	T   int    `json:"t"`
@@ -82,6 +93,7 @@ type Opts struct {
 	Mode   string `json:"mode"`
 	Useall bool   `json:"useall"`
 	Subfee bool   `json:"subfee"`
+	Sig    string `json:"sig"`
 }
 
 type Out struct {
@@ -138,6 +150,11 @@ type Case struct {
 		Cls string `json:"cls"`
 		Amt Amt    `json:"amt"`
 	} `json:"fee"`
+	Msg struct {
+		Cls  string `json:"cls"`
+		Len  int    `json:"len"`
+		Push string `json:"push"`
+	} `json:"msg"`
 	Seqc       ArgWant `json:"seqc"`
 	Lt         ArgWant `json:"lt"`
 	Ver        ArgWant `json:"ver"`
@@ -716,9 +733,17 @@ type runRes struct {
 var walletBin string
 var runs int64
 
+var hangsSeen int64
+
+const hangTimeout = 20 * time.Second
+
 func runWallet(dir string, stdin string, args ...string) (*runRes, error) {
+	return runWalletT(dir, stdin, 180*time.Second, args...)
+}
+
+func runWalletT(dir string, stdin string, limit time.Duration, args ...string) (*runRes, error) {
 	atomic.AddInt64(&runs, 1)
-	ctx, cancel := context.WithTimeout(context.Background(), 180*time.Second)
+	ctx, cancel := context.WithTimeout(context.Background(), limit)
 	defer cancel()
 	cmd := exec.CommandContext(ctx, walletBin, args...)
 	cmd.Dir = dir
@@ -1093,11 +1118,8 @@ func (x *conc) setup() error {
 	case "foreign":
 		x.chAdr, x.chScr = x.foreignAddr("P2PKH", "change", x.line)
 	}
-	switch c.Opts.Msg {
-	case "short":
-		x.msg = "C13 says hello"
-	case "long":
-		x.msg = strings.Repeat("0123456789", 8)
+	if c.Msg.Len > 0 {
+		x.msg = (strings.Repeat("C13 says hello ", c.Msg.Len/15+1))[:c.Msg.Len]
 	}
 	return nil
 }
@@ -1135,7 +1157,10 @@ func (x *conc) multisig(st string, j int) []byte {
 }
 
 func satStr(v uint64, variant int) string {
-	s := fmt.Sprintf("%d.%08d", v/100000000, v%100000000)
+	return trimAmt(fmt.Sprintf("%d.%08d", v/100000000, v%100000000), variant)
+}
+
+func trimAmt(s string, variant int) string {
 	if variant%2 == 1 {
 		s = strings.TrimRight(s, "0")
 		s = strings.TrimSuffix(s, ".")
@@ -1257,6 +1282,10 @@ type sendReq struct {
 	chAdr        string
 	chScr        []byte // nil: default (an address of the wallet)
 	msg          string
+	msgPush      string
+	amtStr       []string // the amounts as decimal coin strings (they may not fit 64 bits)
+	reqBig       []*big.Int
+	sig          string
 	seq, lt, ver ArgWant
 	pred         *Res
 	// balance folder at the time of the request
@@ -1276,7 +1305,12 @@ func (x *conc) doSend(q *sendReq) (tx *PTx, raw []byte, ok bool) {
 		args = append(args, "-stdin")
 		stdin = x.w.pass
 	}
-	pair := func(i int) string { return q.addrs[i] + "=" + satStr(q.amts[i], variant/2+i) }
+	pair := func(i int) string {
+		if i < len(q.amtStr) {
+			return q.addrs[i] + "=" + trimAmt(q.amtStr[i], variant/2+i)
+		}
+		return q.addrs[i] + "=" + satStr(q.amts[i], variant/2+i)
+	}
 	nsend := len(q.addrs)
 	if q.mode == "batch" {
 		nsend = 0
@@ -1328,7 +1362,11 @@ func (x *conc) doSend(q *sendReq) (tx *PTx, raw []byte, ok bool) {
 	if c.Cfg.Atype != "p2kh" {
 		args = append(args, "-atype", c.Cfg.Atype)
 	}
-	if variant%3 == 0 {
+	both := q.sig == "both" && !q.has("IMPU")
+	if both {
+		// -minsig re-signs until the signature is short, -rfc6979 makes every attempt the same: the run must still end
+		args = append(args, "-minsig", "-rfc6979")
+	} else if variant%3 == 0 {
 		args = append(args, "-rfc6979")
 	} else if variant%3 == 1 && !q.has("IMPU") {
 		// (with an uncompressed key the minsig loop "len(ScriptSig) > 106 -> sign again" of sign_tx can never end;
@@ -1341,8 +1379,38 @@ func (x *conc) doSend(q *sendReq) (tx *PTx, raw []byte, ok bool) {
 		args = append(args, "-txfn", txfn)
 	}
 	before := snapshot(x.dir)
-	r, err := runWallet(x.dir, stdin, args...)
-	x.log = append(x.log, r)
+	var r *runRes
+	var err error
+	if both {
+		if atomic.LoadInt64(&hangsSeen) >= 2 {
+			obs("minsig_rfc6979_not_run_after_two_hangs")
+			return
+		}
+		r, err = runWalletT(x.dir, stdin, hangTimeout, args...)
+		x.log = append(x.log, r)
+		if err != nil && strings.Contains(err.Error(), "timed out") {
+			// explain the hang: the same request without -minsig ends at once
+			var a2 []string
+			for _, a := range args {
+				if a != "-minsig" {
+					a2 = append(a2, a)
+				}
+			}
+			r2, e2 := runWallet(x.dir, stdin, a2...)
+			x.log = append(x.log, r2)
+			if e2 != nil {
+				x.infra(e2)
+				return
+			}
+			atomic.AddInt64(&hangsSeen, 1)
+			x.fail(q.step, "minsig-rfc6979-hang", fmt.Sprintf("`wallet ... -minsig -rfc6979` did not end within %v (killed, nothing written); the same request with -rfc6979 alone ends at once (exit %d): with deterministic nonces the minsig loop of sign_tx signs the same long signature for ever",
+				hangTimeout, r2.Code), "", nil)
+			return
+		}
+	} else {
+		r, err = runWallet(x.dir, stdin, args...)
+		x.log = append(x.log, r)
+	}
 	if err != nil {
 		x.infra(err)
 		return
@@ -1367,6 +1435,11 @@ func (x *conc) doSend(q *sendReq) (tx *PTx, raw []byte, ok bool) {
 			sig, what := "written-despite-insufficient", "funds do not cover the demand, yet the wallet wrote / changed files"
 			if pred.Why == "subfee_underflow" {
 				sig, what = "subfee-underflow-written", "-f with a first amount smaller than the fee: the request cannot be met, yet the wallet wrote / changed files"
+			} else if cls := q.wrapClass(); cls != "" {
+				sig = "amount-wrap:" + cls
+				what = "the requested amounts (" + strings.Join(q.amtStr, " + ") + " BTC) exceed any balance, but they " + map[string]string{
+					"parse": "do not fit 64 bits and are read modulo 2^64", "sum": "and the fee add up to 2^64 satoshi or more and the sum wraps"}[cls] +
+					": the funds check passes and the wallet wrote / changed files"
 			}
 			wrote := ""
 			if txfile != "" {
@@ -1489,13 +1562,27 @@ func (x *conc) doSend(q *sendReq) (tx *PTx, raw []byte, ok bool) {
 		rest := tx.Out[len(q.pays):]
 		if q.msg != "" {
 			if len(rest) == 0 {
-				bad("message", "no OP_RETURN output although -msg was given", nil)
+				bad(fmt.Sprintf("msg-output:len%d", len(q.msg)), "no OP_RETURN output although -msg was given", nil)
 			} else {
 				m := rest[len(rest)-1]
 				rest = rest[:len(rest)-1]
-				ps, okp := pushes(m.Script[min(1, len(m.Script)):])
-				if len(m.Script) == 0 || m.Script[0] != 0x6a || !okp || len(ps) != 1 || string(ps[0]) != q.msg || m.Value != 0 {
-					bad("message", fmt.Sprintf("last output (value %d, script %x) is not a zero-value OP_RETURN carrying the message", m.Value, m.Script), nil)
+				// OP_RETURN followed by the canonical push of exactly the message bytes (the model names the push form)
+				var pfx []byte
+				switch q.msgPush {
+				case "direct":
+					pfx = []byte{byte(len(q.msg))}
+				case "pushdata1":
+					pfx = []byte{0x4c, byte(len(q.msg))}
+				default:
+					pfx = []byte{0x4d, byte(len(q.msg)), byte(len(q.msg) >> 8)}
+				}
+				want := append(append([]byte{0x6a}, pfx...), q.msg...)
+				if !bytes.Equal(pfx, push([]byte(q.msg))[:len(pfx)]) {
+					x.infra(fmt.Errorf("model and driver disagree about the push form of a %d-byte message", len(q.msg)))
+				}
+				if !bytes.Equal(m.Script, want) || m.Value != 0 {
+					bad(fmt.Sprintf("msg-output:len%d", len(q.msg)), fmt.Sprintf("-msg of %d bytes: the last output (value %d) has script %x..., expected the zero-value OP_RETURN %x... (0x6a, %s push of the %d message bytes)",
+						len(q.msg), m.Value, m.Script[:min(8, len(m.Script))], want[:min(8, len(want))], q.msgPush, len(q.msg)), nil)
 				}
 			}
 		}
@@ -1603,6 +1690,26 @@ func (q *sendReq) needStr() string {
 	return fmt.Sprintf("payments %d + fee %d", p, q.fee)
 }
 
+// wrapClass: does the request only look affordable in 64-bit arithmetic? "parse": one amount is 2^64 or more,
+// "sum": the amounts plus the fee reach 2^64
+func (q *sendReq) wrapClass() string {
+	lim := new(big.Int).Lsh(big.NewInt(1), 64)
+	sum := new(big.Int).SetUint64(q.fee)
+	for _, v := range q.reqBig {
+		if v.Cmp(lim) >= 0 {
+			return "parse"
+		}
+		sum.Add(sum, v)
+	}
+	if q.subfee && q.mode != "batch" {
+		sum.Sub(sum, new(big.Int).SetUint64(q.fee))
+	}
+	if sum.Cmp(lim) >= 0 {
+		return "sum"
+	}
+	return ""
+}
+
 func (q *sendReq) has(st string) bool {
 	for _, t := range q.stypes {
 		if t == st {
@@ -1695,10 +1802,12 @@ func (x *conc) run() {
 		return
 	}
 	q := &sendReq{step: "send", addrs: x.daddr, scripts: x.dscr, mode: c.Opts.Mode, fee: c.Fee.Amt.Sat(), feeCls: c.Fee.Cls,
-		subfee: c.Opts.Subfee, useall: c.Opts.Useall, chAdr: x.chAdr, chScr: x.chScr, msg: x.msg,
+		subfee: c.Opts.Subfee, useall: c.Opts.Useall, chAdr: x.chAdr, chScr: x.chScr, msg: x.msg, msgPush: c.Msg.Push, sig: c.Opts.Sig,
 		seq: c.Seqc, lt: c.Lt, ver: c.Ver, pred: &c.Res, ops: x.uop, owned: c.Owned, scrs: x.uscr}
 	for i, d := range c.Dests {
 		q.amts = append(q.amts, d.Req.Sat())
+		q.amtStr = append(q.amtStr, d.Req.BTC())
+		q.reqBig = append(q.reqBig, d.Req.Big())
 		q.pays = append(q.pays, d.Pay.Sat())
 		st.mu.Lock()
 		st.ByDtype[d.Dt]++
